@@ -1393,8 +1393,130 @@ def kernel_cases(ctx):
     yield 'abbe_n', pol, {'tol': 1e-14, 'arrays': ['self._p']}
 
 
+# ---- wavelength arguments of any shape ----
+def shape_rows(ctx):
+    """rows of EVERY formula and table layout present in the catalogue (structural selection at run time: the rows on
+    which every coefficient matters, each table layout, repeated-wavelength tables) plus a seeded sample"""
+    df = _catalog()
+    fi = _formula_index()
+    st = table_structure()
+    pick = []
+    for k in range(1, 10):
+        rows = [i for i in sensitive_rows() if fi.get(i, (0,))[0] == k]
+        pick += rows[:2]
+        lens = {}
+        for i, (kk, c) in sorted(fi.items()):
+            if kk == k:
+                lens.setdefault(len(c), i)          # one row per number of terms
+        pick += list(lens.values())[:4]
+    for lay in ('n-only', 'nk-only', 'n+k', 'k-only', 'formula+k', 'formula+nk', 'repeated-wavelength', 'single-row-table'):
+        pick += st[lay][:2]
+    rng = random.Random(ctx.seed * 23 + 11)
+    pick += rng.sample(range(len(df)), ctx.n(12, 400))
+    bad = {i for i, fn in enumerate(df['filename']) if 'polyvinylpyrrolidone/Konig' in fn}
+    return [i for i in sorted(set(pick)) if i not in bad]
+
+
+def shape_arguments(rng, lo, hi, nterms):
+    """wavelength arguments inside [lo, hi]: scalar, 0-d, 1-D and 2-D arrays; second dimensions equal to the number of
+    formula terms, 1, and others; (1, b), (a, 1)"""
+    import numpy as np
+    m = max(1, nterms)
+    shapes = [(), (1,), (4,), (1, 3), (3, 1), (1, m), (m, 1), (2, m), (m, m), (3, m + 1), (2, 3), (3, 2), (4, 7),
+              (2, 2, m)]
+    out = []
+    for sh in shapes:
+        n = int(np.prod(sh)) if sh else 1
+        vals = [lo + (hi - lo) * rng.uniform(0.02, 0.98) for _ in range(n)]
+        out.append(np.array(vals, dtype=float).reshape(sh))
+    return out
+
+
+def shape_violations(path, secs, lo, hi, rng):
+    """n() and k() of one data file on arguments of many shapes: the result must have the argument's shape and each
+    element must equal the scalar call at that wavelength and the data file's formula / consecutive-row interpolation"""
+    import numpy as np
+    from optiland.materials.material_file import MaterialFile
+    out = []
+    with warnings.catch_warnings():
+        warnings.simplefilter('ignore')
+        np.seterr(all='ignore')
+        try:
+            m = MaterialFile(path)
+        except Exception as e:
+            return out, 0
+        fsec = [s for s in secs if s[0] == 'formula']
+        nterms = (len(fsec[0][2]) - 1) // 2 if fsec else 3
+        has_n = sum(1 for s in secs if s[0] in ('formula', 'n', 'nk')) == 1
+        has_k = sum(1 for s in secs if s[0] in ('k', 'nk')) == 1
+        count = 0
+        for key, fn, orc, present in (('n', m.n, oracle_n, has_n), ('k', m.k, oracle_k, has_k)):
+            if not present:
+                continue
+            for arg in shape_arguments(rng, lo, hi, nterms):
+                count += arg.size
+                what = f'{key}(array of shape {arg.shape})'
+                try:
+                    res = fn(arg)
+                except Exception as e:
+                    out.append({'cause': 'array-argument-raises', 'call': what, 'error': f'{type(e).__name__}: {e}'[:100]})
+                    continue
+                if np.shape(res) != arg.shape:
+                    out.append({'cause': 'array-shape', 'call': what, 'result_shape': list(np.shape(res)),
+                                'argument': np.ravel(arg).tolist()[:8]})
+                    continue
+                fa, fr = np.ravel(arg), np.ravel(np.asarray(res))
+                for w, v in zip(fa, fr):
+                    w = float(w)
+                    if np.iscomplexobj(v):
+                        continue
+                    v = float(v)
+                    try:
+                        sv = _f(fn(w))
+                    except Exception:
+                        sv = None
+                    o = orc(secs, w)
+                    if sv is None or not _agree(v, sv, 1e-13):
+                        out.append({'cause': 'scalar-array', 'call': what, 'wavelength': w, 'array_element': v,
+                                    'scalar_call': sv, 'oracle': o[1][:2] if o[0] == 'ok' else None})
+                        break
+                    if o[0] == 'ok' and not _agree_any(v, o[1]):
+                        out.append({'cause': 'index-value' if key == 'n' else 'k-value', 'call': what, 'wavelength': w,
+                                    'array_element': v, 'oracle': o[1][:2]})
+                        break
+    return out, count
+
+
+def check_shapes(ctx, rows=None):
+    """"scalar and array wavelength arguments agree" over array arguments of any shape (implementation-level oracle only:
+    no Coq involved, so it reports even when a kernel cannot be translated)"""
+    df = _catalog()
+    rows = shape_rows(ctx) if rows is None else rows
+    rng = random.Random(ctx.seed * 29 + 2)
+    res = {'name': 'array-argument-shapes', 'n': 0, 'nontrivial': 0, 'samples': [], 'disagreements': [],
+           'histogram': {}}
+    for i in rows:
+        r = df.iloc[i]
+        path = _repo('database', 'data-nk', r['filename'])
+        secs = read_sections(path)
+        layout = '+'.join(s[0] + (str(s[1]) if s[0] == 'formula' else '') for s in secs)
+        res['histogram'][layout] = res['histogram'].get(layout, 0) + 1
+        if any(not nondecreasing([q[0] for q in s[1]]) for s in secs if s[0] in ('n', 'k', 'nk')):
+            continue                        # rows out of order: covered by catalogue-index
+        viol, cnt = shape_violations(path, secs, float(r['min_wavelength']), float(r['max_wavelength']), rng)
+        res['n'] += cnt
+        res['nontrivial'] += int(cnt > 0)
+        if viol:
+            res['disagreements'].append({'kind': 'array-shape', 'file': r['filename'], 'row': int(i),
+                                         'cause': viol[0]['cause'], 'oracle': viol[:3], 'violations': len(viol),
+                                         'violates_property': True})
+    res['samples'].append({'shapes': '(), (1,), (4,), (1,3), (3,1), (1,m), (m,1), (2,m), (m,m), (3,m+1), (2,3), (3,2), (4,7), (2,2,m); m = number of formula terms'})
+    return res
+
+
 def system_checks(ctx):
     yield check_index(ctx)
+    yield check_shapes(ctx)
     yield check_lookup_property(ctx)
     yield check_lookup_model(ctx)
     yield check_lookup_history(ctx)
@@ -1439,6 +1561,7 @@ def search(ctx, broken, disagreements):
             found.append(w)
     r = check_abbe_python(ctx)
     found.extend(r)
+    found.extend(check_shapes(ctx)['disagreements'][:4])
     found.extend(check_lookup_history(ctx, with_coq=False)['disagreements'][:3])
     if not any(f['kind'] == 'index' for f in found):
         found.extend(synthetic_formula_search(ctx))
